@@ -62,6 +62,11 @@ type fullJ struct {
 	Decls []declJ `json:"decls"`
 }
 
+type sessionJ struct {
+	Prelude *caseJ   `json:"prelude,omitempty"` // a case run alone, to io.EOF, before
+	Others  []*caseJ `json:"others,omitempty"`  // cases whose readers are alive at the same time, taking turns
+}
+
 type caseJ struct {
 	Mode     string  `json:"mode"`
 	Cfg      cfgJ    `json:"cfg"`
@@ -71,7 +76,14 @@ type caseJ struct {
 	// InModel: the configuration satisfies the side condition of edi_roundtrip (all 'ok' cases now
 	// that the model's encoder is rune-wise), so the Coq model's edi_encode must reproduce the input
 	// from the logical segments and exp_seg / exp_full the observed results
-	InModel bool   `json:"in_model"`
+	// DeclMode: how the FileDecl handed to the readers comes about: "" a fresh value, "mutate" the
+	// harness-wide value changed in place, "copy" a copy of it changed
+	DeclMode string `json:"decl_mode,omitempty"`
+	// ReadsAfterEOF: further NonValidatingReader.Read calls issued after io.EOF (each must be io.EOF)
+	ReadsAfterEOF int `json:"reads_after_eof,omitempty"`
+	// Session: what ran before / together with this case when it was observed (replayed as such)
+	Session *sessionJ `json:"session,omitempty"`
+	InModel bool      `json:"in_model"`
 	ASCII   bool   `json:"ascii_heads"`
 	Full    *fullJ `json:"full"`
 }
@@ -124,8 +136,25 @@ type observed struct {
 	Problems []string // things no model outcome stands for: panics, hangs, foreign error types
 }
 
+// sharedDecl is one FileDecl value the harness keeps across cases: cases with DeclMode "mutate"
+// change its delimiters in place and hand it to the readers again, cases with DeclMode "copy" copy
+// it as a template and change the copy (both are uses of the edi package's public API; a reader
+// must tokenize with what the FileDecl it was given says at that moment).
+var sharedDecl edi.FileDecl
+
 func (c *caseJ) fileDecl() *edi.FileDecl {
-	d := &edi.FileDecl{SegDelim: string(unhx(c.Cfg.Seg)), ElemDelim: string(unhx(c.Cfg.Elem)), IgnoreCRLF: c.Cfg.IgnoreCRLF}
+	var d *edi.FileDecl
+	switch c.DeclMode {
+	case "mutate":
+		d = &sharedDecl
+	case "copy":
+		cp := sharedDecl
+		d = &cp
+	default:
+		d = &edi.FileDecl{}
+	}
+	d.SegDelim, d.ElemDelim, d.IgnoreCRLF = string(unhx(c.Cfg.Seg)), string(unhx(c.Cfg.Elem)), c.Cfg.IgnoreCRLF
+	d.CompDelim, d.RepDelim, d.ReleaseChar, d.SegDecls = nil, nil, nil, nil
 	if c.Cfg.Comp != nil {
 		s := string(unhx(*c.Cfg.Comp))
 		d.CompDelim = &s
@@ -148,6 +177,9 @@ func (c *caseJ) reader() io.Reader {
 		r = iotest.HalfReader(r)
 	case "one":
 		r = iotest.OneByteReader(r)
+	case "dataerr":
+		// the final bytes arrive together with io.EOF (allowed by the io.Reader contract)
+		r = iotest.DataErrReader(r)
 	}
 	return r
 }
@@ -170,91 +202,219 @@ func guarded(what string, o *observed, f func()) {
 	}
 }
 
-func run(c *caseJ) *observed {
-	o := &observed{}
-	limit := len(c.InputHex)/2 + 5
-	guarded("NonValidatingReader.Read", o, func() {
-		rd := edi.NewNonValidatingReader(c.reader(), c.fileDecl())
-		for i := 0; i < limit; i++ {
-			seg, err := rd.Read()
-			if err == io.EOF {
-				return
-			}
-			if err != nil {
-				if !edi.IsErrInvalidEDI(err) {
-					o.Problems = append(o.Problems, "NonValidatingReader.Read returned a non-ErrInvalidEDI error: "+err.Error())
-					return
-				}
-				if strings.Contains(err.Error(), "cannot read segment") {
-					// scanner error (token too long / read error): not a tokenisation outcome
-					o.Problems = append(o.Problems, "scanner error: "+err.Error())
-					return
-				}
-				o.Raw = append(o.Raw, segObs{Err: true})
-				o.Fatal = append(o.Fatal, "RcFatal")
-				continue
-			}
-			so := segObs{Name: []byte(seg.Name)}
-			for _, e := range seg.Elems {
-				so.Elems = append(so.Elems, rawElemObs{e.ElemIndex, e.CompIndex, append([]byte{}, e.Data...)})
-			}
-			o.Raw = append(o.Raw, so)
+// A stepper drives one reader one Read at a time, so that several readers can be alive at once
+// and take turns.  step reports whether the reader is finished.
+type stepper interface{ step() bool }
+
+type nvStepper struct {
+	o          *observed
+	rd         *edi.NonValidatingReader
+	n, limit   int
+	afterEOF   int // Reads still to be issued after io.EOF: each must return io.EOF again
+	reachedEOF bool
+}
+
+func newNVStepper(c *caseJ, o *observed, extra int) *nvStepper {
+	return &nvStepper{o: o, rd: edi.NewNonValidatingReader(c.reader(), c.fileDecl()), limit: len(c.InputHex)/2 + 5, afterEOF: extra}
+}
+
+func (s *nvStepper) step() bool {
+	o := s.o
+	seg, err := s.rd.Read()
+	if s.reachedEOF {
+		if err != io.EOF {
+			o.Problems = append(o.Problems, fmt.Sprintf("NonValidatingReader.Read after io.EOF returned (%q, %v) instead of io.EOF", seg.Name, err))
+			return true
 		}
+		s.afterEOF--
+		return s.afterEOF <= 0
+	}
+	if err == io.EOF {
+		s.reachedEOF = true
+		return s.afterEOF <= 0
+	}
+	s.n++
+	if s.n > s.limit {
 		o.Problems = append(o.Problems, "NonValidatingReader.Read did not reach io.EOF")
+		return true
+	}
+	if err != nil {
+		if !edi.IsErrInvalidEDI(err) {
+			o.Problems = append(o.Problems, "NonValidatingReader.Read returned a non-ErrInvalidEDI error: "+err.Error())
+			return true
+		}
+		if strings.Contains(err.Error(), "cannot read segment") {
+			// scanner error (token too long / read error): not a tokenisation outcome
+			o.Problems = append(o.Problems, "scanner error: "+err.Error())
+			return true
+		}
+		o.Raw = append(o.Raw, segObs{Err: true})
+		o.Fatal = append(o.Fatal, "RcFatal")
+		return false
+	}
+	so := segObs{Name: []byte(seg.Name)}
+	for _, e := range seg.Elems {
+		so.Elems = append(so.Elems, rawElemObs{e.ElemIndex, e.CompIndex, append([]byte{}, e.Data...)})
+	}
+	o.Raw = append(o.Raw, so)
+	return false
+}
+
+type fullReader interface {
+	Read() (*idr.Node, error)
+	Release(*idr.Node)
+}
+
+type fullStepper struct {
+	o        *observed
+	rd       fullReader
+	n, limit int
+}
+
+func newFullStepper(c *caseJ, o *observed) *fullStepper {
+	fd := c.fileDecl()
+	zero, minus1 := 0, -1
+	sd := &edi.SegDecl{Name: string(unhx(c.Full.Name)), IsTarget: true, Min: &zero, Max: &minus1}
+	for k, d := range c.Full.Decls {
+		e := edi.Elem{Name: fmt.Sprintf("e%d", k), Index: d.Index, CompIndex: d.Comp, EmptyIfMissing: d.EmptyIfMissing}
+		if d.Default != nil {
+			s := string(unhx(*d.Default))
+			e.Default = &s
+		}
+		sd.Elems = append(sd.Elems, e)
+	}
+	fd.SegDecls = []*edi.SegDecl{sd}
+	rd, err := edi.NewReader("in", c.reader(), fd, "")
+	if err != nil {
+		o.Problems = append(o.Problems, "edi.NewReader: "+err.Error())
+		return nil
+	}
+	return &fullStepper{o: o, rd: rd, limit: len(c.InputHex)/2 + 5}
+}
+
+func (s *fullStepper) step() bool {
+	o := s.o
+	n, err := s.rd.Read()
+	if err == io.EOF {
+		return true
+	}
+	s.n++
+	if s.n > s.limit {
+		o.Problems = append(o.Problems, "ediReader.Read did not reach io.EOF")
+		return true
+	}
+	if err != nil {
+		if !edi.IsErrInvalidEDI(err) {
+			o.Problems = append(o.Problems, "ediReader.Read returned an error that is not the fatal ErrInvalidEDI: "+err.Error())
+			o.Fatal = append(o.Fatal, "RcPlain")
+		} else {
+			o.Fatal = append(o.Fatal, "RcFatal")
+		}
+		o.Full = append(o.Full, readObs{Fatal: true})
+		return true
+	}
+	ro := readObs{}
+	for ch := n.FirstChild; ch != nil; ch = ch.NextSibling {
+		k := -1
+		fmt.Sscanf(ch.Data, "e%d", &k)
+		txt := []byte{}
+		if ch.FirstChild != nil && ch.FirstChild.Type == idr.TextNode {
+			txt = []byte(ch.FirstChild.Data)
+		} else {
+			o.Problems = append(o.Problems, "element node without a text child")
+		}
+		ro.Kids = append(ro.Kids, kidObs{k, txt})
+	}
+	o.Full = append(o.Full, ro)
+	s.rd.Release(n)
+	return false
+}
+
+// run drives the readers of one case alone: the NonValidatingReader to io.EOF (plus the Reads
+// after EOF the case asks for), then the full reader.
+func run(c *caseJ) *observed {
+	if c.Session != nil {
+		return runSession(c)
+	}
+	return runSolo(c)
+}
+
+func runSolo(c *caseJ) *observed {
+	o := &observed{}
+	guarded("NonValidatingReader.Read", o, func() {
+		for st := newNVStepper(c, o, c.ReadsAfterEOF); !st.step(); {
+		}
 	})
 	if c.Full != nil {
 		guarded("ediReader.Read", o, func() {
-			fd := c.fileDecl()
-			zero, minus1 := 0, -1
-			sd := &edi.SegDecl{Name: string(unhx(c.Full.Name)), IsTarget: true, Min: &zero, Max: &minus1}
-			for k, d := range c.Full.Decls {
-				e := edi.Elem{Name: fmt.Sprintf("e%d", k), Index: d.Index, CompIndex: d.Comp, EmptyIfMissing: d.EmptyIfMissing}
-				if d.Default != nil {
-					s := string(unhx(*d.Default))
-					e.Default = &s
+			if st := newFullStepper(c, o); st != nil {
+				for !st.step() {
 				}
-				sd.Elems = append(sd.Elems, e)
 			}
-			fd.SegDecls = []*edi.SegDecl{sd}
-			rd, err := edi.NewReader("in", c.reader(), fd, "")
-			if err != nil {
-				o.Problems = append(o.Problems, "edi.NewReader: "+err.Error())
-				return
-			}
-			for i := 0; i < limit; i++ {
-				n, err := rd.Read()
-				if err == io.EOF {
-					return
-				}
-				if err != nil {
-					if !edi.IsErrInvalidEDI(err) {
-						o.Problems = append(o.Problems, "ediReader.Read returned an error that is not the fatal ErrInvalidEDI: "+err.Error())
-						o.Fatal = append(o.Fatal, "RcPlain")
-					} else {
-						o.Fatal = append(o.Fatal, "RcFatal")
-					}
-					o.Full = append(o.Full, readObs{Fatal: true})
-					return
-				}
-				ro := readObs{}
-				for ch := n.FirstChild; ch != nil; ch = ch.NextSibling {
-					k := -1
-					fmt.Sscanf(ch.Data, "e%d", &k)
-					txt := []byte{}
-					if ch.FirstChild != nil && ch.FirstChild.Type == idr.TextNode {
-						txt = []byte(ch.FirstChild.Data)
-					} else {
-						o.Problems = append(o.Problems, "element node without a text child")
-					}
-					ro.Kids = append(ro.Kids, kidObs{k, txt})
-				}
-				o.Full = append(o.Full, ro)
-				rd.Release(n)
-			}
-			o.Problems = append(o.Problems, "ediReader.Read did not reach io.EOF")
 		})
 	}
 	return o
+}
+
+// runTogether keeps the readers of several cases alive at once: all NonValidatingReaders are
+// created first and take turns Read by Read, then all full readers likewise.  Every reader must
+// deliver what it delivers alone.
+func runTogether(cs []*caseJ) []*observed {
+	obs := make([]*observed, len(cs))
+	for i := range cs {
+		obs[i] = &observed{}
+	}
+	all := &observed{}
+	guarded("readers alive at once", all, func() {
+		for pass := 0; pass < 2; pass++ {
+			var sts []stepper
+			for i, c := range cs {
+				if pass == 0 {
+					sts = append(sts, newNVStepper(c, obs[i], c.ReadsAfterEOF))
+				} else if c.Full != nil {
+					if st := newFullStepper(c, obs[i]); st != nil {
+						sts = append(sts, st)
+					}
+				}
+			}
+			for len(sts) > 0 {
+				next := sts[:0]
+				for _, st := range sts {
+					if !st.step() {
+						next = append(next, st)
+					}
+				}
+				sts = next
+			}
+		}
+	})
+	for _, o := range obs {
+		o.Problems = append(o.Problems, all.Problems...)
+	}
+	return obs
+}
+
+// runSession replays what led to the case: the prelude case alone (its readers run to io.EOF,
+// the full reader asks for more after EOF), then the case together with its companions.
+func runSession(c *caseJ) *observed {
+	s := c.Session
+	if s.Prelude != nil {
+		p := *s.Prelude
+		p.Session = nil
+		runSolo(&p)
+	}
+	primary := *c
+	primary.Session = nil
+	group := []*caseJ{&primary}
+	for _, x := range s.Others {
+		y := *x
+		y.Session = nil
+		group = append(group, &y)
+	}
+	if len(group) == 1 {
+		return runSolo(&primary)
+	}
+	return runTogether(group)[0]
 }
 
 // ---- the oracle: what the logical segments demand ------------------------------------------------
@@ -540,7 +700,10 @@ func nontrivial(c *caseJ) bool {
 var shrunk int
 
 func evaluate(c *caseJ, sum *vh.Summary, cw *vh.CaseWriter, verbose bool) {
-	o := run(c)
+	evaluateObs(c, run(c), sum, cw, verbose)
+}
+
+func evaluateObs(c *caseJ, o *observed, sum *vh.Summary, cw *vh.CaseWriter, verbose bool) {
 	canon, _ := json.Marshal(c)
 	sum.Count(string(canon), nontrivial(c))
 	what, detail := oracle(c, o)
@@ -597,6 +760,15 @@ func evaluate(c *caseJ, sum *vh.Summary, cw *vh.CaseWriter, verbose bool) {
 		cw.Add(coqCase(c, o), c)
 	}
 	sum.Hist("mode:" + c.Mode)
+	if c.Session != nil && len(c.Session.Others) > 0 {
+		sum.Hist(fmt.Sprintf("session:%d-readers-alive-at-once-after-an-input-ran-to-EOF", 1+len(c.Session.Others)))
+	}
+	if c.DeclMode != "" {
+		sum.Hist("FileDecl:" + c.DeclMode + "-of-a-value-used-before")
+	}
+	if c.ReadsAfterEOF > 0 {
+		sum.Hist("reads-after-EOF")
+	}
 	if c.Mode == "ok" {
 		if c.ASCII {
 			sum.Hist("ok:ascii-first-bytes")
@@ -771,14 +943,67 @@ func main() {
 		}
 	}
 	total := o.Count(1300, 40000)
-	for i := 0; i < total; i++ {
+	gen := func() *caseJ {
 		var c *caseJ
 		if r.Chance(0.75) {
 			c = genOK(r)
 		} else {
 			c = genWild(r)
 		}
-		evaluate(c, sum, cw, false)
+		c.ReadsAfterEOF = []int{0, 0, 1, 2}[r.Pick(4)]
+		return c
+	}
+	var lastDone, lastShared *caseJ // prelude candidates: ran alone to EOF with a full reader / used the shared FileDecl
+	bare := func(c *caseJ) *caseJ { d := *c; d.Session = nil; return &d }
+	for i := 0; i < total; {
+		if lastDone != nil && r.Chance(0.1) {
+			// readers of two or three cases alive at once, taking turns, after another input ran to EOF
+			n := r.Between(2, 3)
+			group := make([]*caseJ, n)
+			for k := range group {
+				group[k] = gen()
+				if r.Chance(0.2) && lastShared != nil {
+					group[k].DeclMode = "copy"
+				}
+			}
+			obs := runTogether(group)
+			for k, c := range group {
+				sess := &sessionJ{Prelude: bare(lastDone)}
+				if c.DeclMode != "" {
+					sess.Prelude = bare(lastShared)
+				}
+				for j, x := range group {
+					if j != k {
+						sess.Others = append(sess.Others, bare(x))
+					}
+				}
+				c.Session = sess
+				evaluateObs(c, obs[k], sum, cw, false)
+			}
+			i += n
+			continue
+		}
+		c := gen()
+		switch r.Pick(10) {
+		case 0, 1:
+			c.DeclMode = "mutate"
+		case 2:
+			if lastShared != nil {
+				c.DeclMode = "copy"
+			}
+		}
+		ob := runSolo(c)
+		if c.DeclMode != "" && lastShared != nil {
+			c.Session = &sessionJ{Prelude: bare(lastShared)} // for the replay: what the shared value held before
+		}
+		evaluateObs(c, ob, sum, cw, false)
+		if c.DeclMode == "mutate" {
+			lastShared = bare(c)
+		}
+		if c.Full != nil && len(ob.Problems) == 0 {
+			lastDone = bare(c)
+		}
+		i++
 	}
 	// the smallest failing case is the one bin/check turns into the replay
 	sort.SliceStable(sum.Failures, func(i, j int) bool {
